@@ -86,7 +86,7 @@ func init() {
 	})
 	register(&propDef{
 		ID: "C04", Engine: "wsim", Pkg: "./engines/wsim", Level: "exploration",
-		Runs:        map[string]int{"quick": 1200, "thorough": 120000},
+		Runs:        map[string]int{"quick": 1600, "thorough": 120000},
 		MaxSec:      map[string]float64{"quick": 900, "thorough": 3600},
 		Prepare:     prepareWsimC,
 		Rule:        "one run = one Wuffs program (operator-stress generator over u8/u16/u32/u64 with modular, saturating, bitwise, shift, division, conversion, min/max/low_bits/high_bits, compound assignment on narrow types, private pure and impure calls, labelled break/continue out of nested loops; the C01 and C02 generators; hand corpus) accepted by the working tree's checker, plus one seeded history of public calls on a persistent receiver. The history is executed by the reference interpreter and by the C that the working tree's wuffs-c generates from the same source, compiled by clang-14 (-O0 with ASan+UBSan, or -O2, drawn) and driven by a generated main() performing exactly the recorded calls; compared: every return value, then every scalar field and array element through appended getters",
